@@ -403,6 +403,11 @@ Inductive sorted_v : vtree -> Prop :=
 | sorted_VMissing : sorted_v VMissing
 | sorted_VNode i cs : sorted_names (names cs) -> Forall (fun nc => sorted_v (snd nc)) cs -> sorted_v (VNode i cs).
 
+(* no name twice in a directory *)
+Inductive nodup_v : vtree -> Prop :=
+| nodup_VMissing : nodup_v VMissing
+| nodup_VNode i cs : NoDup (names cs) -> Forall (fun nc => nodup_v (snd nc)) cs -> nodup_v (VNode i cs).
+
 (* equal except in the field FileInfo::operator== skips (the mode) *)
 Inductive cmp_sim : vtree -> vtree -> Prop :=
 | cmp_Missing : cmp_sim VMissing VMissing
